@@ -10,6 +10,7 @@ namespace VgiVerif.HttpReq
 /-- `POST {prefix}/{method}` | `…/init` | `…/exchange` -/
 inductive Route where
   | unary | init | exchange
+  | uploadUrl      -- `POST {prefix}/__upload_url__/init`: the framework's own upload-URL method (a literal route)
 deriving Repr, DecidableEq
 
 /-- what the method name in the URL resolves to on the server -/
@@ -18,6 +19,7 @@ inductive MethodKind where
   | producer     -- a known stream method whose input schema is empty
   | exchanger    -- a known stream method with an input schema
   | unknown      -- not a method of the service
+  | describe     -- the built-in `__describe__` (unary; answered from a batch built when the server was constructed)
 deriving Repr, DecidableEq
 
 /-- exception classes Arrow / `ValidatedReader` raise while *reading* request bytes -/
@@ -207,6 +209,16 @@ structure Tables where
   tokenStatuses : List Nat
   /-- handler guarding `_coerce_input_batch`: status per exception class (`none` = not caught) -/
   coerce : ParamDefect → Option Nat
+  /-- `_run_unary_sync`: the pre-built `__describe__` answer is returned before the request is read and validated;
+      the protocol-version gate exempts `__describe__` -/
+  describeBeforeRead : Bool
+  describeExemptFromVersionGate : Bool
+  /-- `_UploadUrlResource.on_post`: content type checked first; tables of the try around `_read_request`;
+      status of a failing provider -/
+  uploadChecksContentType : Bool
+  uploadParse : ParseExc → Option Nat
+  uploadVal : ValExc → Option Nat
+  uploadFail : Nat
   /-- in-band failure statuses (before `_set_http_status`) -/
   unaryFail : Nat
   initFail : Nat
